@@ -167,6 +167,10 @@ def gen_world(rng, want="plain"):
         cli["decompose_deadlines"] = True
     if rng.random() < 0.12:
         cli["log_level"] = "debug"
+    # replicated job graphs (each replica draws its own arrivals): chosen from a sub-stream so that the worlds of the
+    # main stream stay what they were
+    if common.Rng(0, "c09-replication/" + json.dumps(w["workload"], sort_keys=True)).random() < (0.5 if want in ("poisson", "gamma") else 0.15):
+        cli["replication_factor"] = 2
     graphs = w["workload"]["graphs"]
     if want == "poisson":
         to_poisson(rng, rng.choice(graphs))
@@ -274,7 +278,7 @@ def argv(world, wl, wk):
     for k in ("enforce_deadlines", "resolve_conditionals_at_submission", "decompose_deadlines"):
         if cli.get(k):
             a.append(f"--{k}")
-    for k in ("min_deadline_variance", "max_deadline_variance", "log_file_mode"):
+    for k in ("min_deadline_variance", "max_deadline_variance", "log_file_mode", "replication_factor"):
         if k in cli:
             a.append(f"--{k}={cli[k]}")
     return a
